@@ -50,4 +50,38 @@ TEXT = {
                 "and panic-freedom of parser.go productions (partial).",
         "technique": "Lean 4 proof (totality of the modelled lexer/splitter) + correspondence + deadline-guarded execution of all entry points",
     },
+    "C15": {
+        "level": "Lean 4 theorems for EVERY byte string and EVERY printable-predicate: QuoteSQLString(s) lexes as exactly one string token with value s "
+                 "(including invalid UTF-8, both quote characters, controls, every escape form), QuoteSQLBytes(b) as one bytes token with value b, "
+                 "QuoteSQLIdent(s) (s non-empty) as one identifier named s, returned unquoted iff s is not a reserved word and identifier-shaped. Supporting "
+                 "theorems: UTF-8 decode/encode round trip of the model's decoder, hex round trips, locality of the quoted-content scanner. Models tied to "
+                 "quote.go and lexer.go by the QUOTE and LEX channels; the predicate evaluates the property on the Go functions (all 1-byte, 2-byte strings, "
+                 "code points, keywords, random).",
+        "design_ref": "DESIGN.md §4 C15",
+        "note": "Trusted: Lean kernel + standard axioms; models of quote.go / lexer.go validated by channels on explored inputs; unicode.IsPrint not trusted (quantified over).",
+        "technique": "Lean 4 proof (induction over runes/bytes with the decoder's loop invariant) + correspondence",
+    },
+    "C14": {
+        "level": "A reference lexer (MF/Spec/Lexical.lean) written from the GoogleSQL lexical-structure page, organised by token class and independent of "
+                 "lexer.go; kernel-decided instantiations on tables regenerated from the source on every run (token.Keywords = the 96 reserved words; each "
+                 "char.IsX body = the specified class on all 256 bytes); the Go lexer's token stream (kinds, extents, decoded values, base, accept/reject) is "
+                 "compared with the reference on exhaustive short strings, a literal generator (prefix x quote form x escape x position), number forms, corpus "
+                 "and random inputs; any disagreement is reported with the input as replay. The refinement theorem model-refines-spec is in progress; until it "
+                 "is listed the level is proof of the instantiations + translation validation against the reference.",
+        "design_ref": "DESIGN.md §4 C14",
+        "note": "Trusted: the reference lexer is the meaning of 'GoogleSQL lexical structure' here (decisions P1-P4 documented in its header); Lean kernel; "
+                "translator for keywords.go / char/is.go.",
+        "technique": "reference lexer in Lean + kernel-decided table instantiations + differential comparison (SPEC channel)",
+    },
+    "C19": {
+        "level": "Tables regenerated from the source on every run; kernel-decided: for all 264 node types the body of Pos()/End() in ast/pos.go is exactly the "
+                 "emission of the documented expression, walk_internal.go pushes exactly the node-typed fields in reverse declaration order with the right "
+                 "single/many tag and label, every struct has its rows. Lean theorem emit_correct: the emitted Go (strict helpers of pos_util.go) and the "
+                 "documented expression (poslang interpreter semantics) denote the same value, for every expression and context. Finite clauses run by the "
+                 "harness: the repository's generators reproduce the committed files byte for byte; poslang.EvalPos agrees with the compiled methods on every "
+                 "node of every explored input; the TREE channel checks the Lean interpreters on the tables against Go's Pos()/End()/Walk per node.",
+        "design_ref": "DESIGN.md §4 C19",
+        "note": "Trusted: tools/extract (syntactic reader; unrecognised shapes become explicit failing rows), Lean kernel, transcription of poslang/pos_util.",
+        "technique": "translator-regenerated tables + kernel evaluation (decide +kernel) + Lean proof of emitter correctness + translation validation",
+    },
 }
